@@ -374,3 +374,36 @@ def exposes_selection_else_all(db: ProgramDB, f: FuncInfo, value: ast.AST) -> bo
 
     b = base(value)
     return isinstance(b, ast.IfExp) and src(b.test) == "graph.selected is not None" and src(b.body) == "graph.selected" and src(b.orelse) == "graph.outputs"
+
+
+def state_update_sites(ctx, uv: FuncInfo):
+    """CFG nodes of ``GraphState.update_value`` that (a) advance a version, (b) store the value — directly, or through a
+    method of the same class all of whose paths do it (a wrapper: 'records a value under its next version')."""
+    db = ctx.db
+    ucfg = ctx.cfg(uv)
+
+    def is_inc(a: ast.AST) -> bool:
+        return isinstance(a, (ast.Assign, ast.AugAssign)) and "versions" in src(a.targets[0] if isinstance(a, ast.Assign) else a.target)
+
+    def is_store(a: ast.AST) -> bool:
+        return isinstance(a, ast.Assign) and any(isinstance(t_, ast.Subscript) and src(t_.value).endswith(".values") for t_ in a.targets)
+
+    incs = [n for n in ucfg.nodes if n.kind == "stmt" and is_inc(n.ast)]
+    stores = [n for n in ucfg.nodes if n.kind == "stmt" and is_store(n.ast)]
+    for n in ucfg.nodes:
+        for c in ucfg.calls_at(n):
+            if not (isinstance(c.func, ast.Attribute) and isinstance(c.func.value, ast.Name) and c.func.value.id == "self" and uv.cls is not None):
+                continue
+            m = uv.cls.find_method(c.func.attr)
+            if m is None or m is uv:
+                continue
+            from sa.cfg import all_paths_pass
+
+            mcfg = ctx.cfg(m)
+            mi = [x for x in mcfg.nodes if x.kind == "stmt" and is_inc(x.ast)]
+            ms = [x for x in mcfg.nodes if x.kind == "stmt" and is_store(x.ast)]
+            if mi and all_paths_pass(mcfg.entry, mcfg.exit_return, mi):
+                incs.append(n)
+            if ms and all_paths_pass(mcfg.entry, mcfg.exit_return, ms):
+                stores.append(n)
+    return ucfg, incs, stores
